@@ -909,6 +909,154 @@ def fpCodec (c : FpCfg) : Codec (Fp c.p) where
   sqrt := fpSqrt c.p
   lt a b := a.val < b.val
 
+/-! ## Spec-level quadratic extension `Fp[u]/(u² − β)` (coordinate field of e.g. BLS12-381 G2)
+
+Plain textbook arithmetic: the Rust algorithms for extension-field arithmetic are property C02;
+the point code only needs the field operations, `sqrt` and the order. -/
+
+structure Fp2 (p β : Nat) where
+  c0 : Fp p
+  c1 : Fp p
+  deriving DecidableEq, Repr
+
+namespace Fp2
+variable {p β : Nat}
+
+instance : Zero (Fp2 p β) := ⟨⟨0, 0⟩⟩
+instance : One (Fp2 p β) := ⟨⟨1, 0⟩⟩
+instance : Add (Fp2 p β) := ⟨fun a b => ⟨a.c0 + b.c0, a.c1 + b.c1⟩⟩
+instance : Sub (Fp2 p β) := ⟨fun a b => ⟨a.c0 - b.c0, a.c1 - b.c1⟩⟩
+instance : Neg (Fp2 p β) := ⟨fun a => ⟨-a.c0, -a.c1⟩⟩
+instance : Mul (Fp2 p β) :=
+  ⟨fun a b => ⟨a.c0 * b.c0 + Fp.ofNat p β * (a.c1 * b.c1), a.c0 * b.c1 + a.c1 * b.c0⟩⟩
+instance : Inv (Fp2 p β) :=
+  ⟨fun a =>
+    let n := a.c0 * a.c0 - Fp.ofNat p β * (a.c1 * a.c1)
+    let ni := n⁻¹
+    ⟨a.c0 * ni, -(a.c1 * ni)⟩⟩
+instance : Inhabited (Fp2 p β) := ⟨0⟩
+
+/-- the Frobenius map `x ↦ x^p` (`c1 *= β^((p-1)/2) = −1`) -/
+def conj (a : Fp2 p β) : Fp2 p β := ⟨a.c0, -a.c1⟩
+
+end Fp2
+
+/-! ## Square roots in any finite field of odd order `q` (some root; Tonelli–Shanks) -/
+
+section gsqrt
+variable {G : Type} [Mul G] [One G] [DecidableEq G]
+
+def gpowAux : Nat → G → Nat → G → G
+  | 0, _, _, acc => acc
+  | fuel + 1, b, e, acc =>
+    if e = 0 then acc else gpowAux fuel (b * b) (e / 2) (if e % 2 = 1 then acc * b else acc)
+
+/-- `g^e` by square-and-multiply -/
+def gpow (g : G) (e : Nat) : G := gpowAux (e.log2 + 2) g e 1
+
+def gOrderExp : Nat → G → Nat → Nat
+  | 0, _, i => i
+  | fuel + 1, t, i => if t = 1 then i else gOrderExp fuel (t * t) (i + 1)
+
+def gTsLoop : Nat → G → G → G → Nat → G
+  | 0, x, _, _, _ => x
+  | fuel + 1, x, t, c, m =>
+    if t = 1 then x
+    else
+      let i := gOrderExp m t 0
+      let b := gpow c (2 ^ (m - i - 1))
+      let c' := b * b
+      gTsLoop fuel (x * b) (t * c') c' i
+
+/-- a square root of `a` in a field with `q` elements (`q` odd); `cands` must contain a non-square -/
+def gSqrt (q : Nat) (isZero : G → Bool) (cands : List G) (a : G) : Option G :=
+  if isZero a then some a
+  else if gpow a ((q - 1) / 2) ≠ 1 then none
+  else
+    let (s, m) := twoAdic (q.log2 + 2) 0 (q - 1)
+    match cands.find? (fun z => !isZero z && gpow z ((q - 1) / 2) ≠ 1) with
+    | none => none
+    | some z => some (gTsLoop (s + 1) (gpow a ((m + 1) / 2)) (gpow a m) (gpow z m) s)
+
+end gsqrt
+
+/-- candidates for a quadratic non-residue of `Fp2`: `i + j·u` for small `i`, `j ≥ 1` -/
+def fp2Cands (p β : Nat) : List (Fp2 p β) :=
+  (List.range 3).flatMap (fun j => (List.range 32).map (fun i => (⟨Fp.ofNat p i, Fp.ofNat p (j + 1)⟩ : Fp2 p β)))
+
+/-- the `Codec` of `Fp2<P>` = `QuadExtField<Fp2ConfigWrapper<P>>` over a prime field:
+    (de)serialisation through the extension templates above, `Ord` compares `c1` first -/
+def fp2Codec (c : FpCfg) (β : Nat) : Codec (Fp2 c.p β) where
+  serFlags Fl _ x fl := extSerFlags c Fl (.quad (.base x.c0) (.base x.c1)) fl
+  deFlags Fl _ := do
+    let (v, fl) ← extDeFlags c Fl (.quad .base)
+    match v with
+    | .quad (.base a) (.base b) => pure (⟨a, b⟩, fl)
+    | _ => panicM
+  de cm vd := do
+    let v ← extDe c (.quad .base) cm vd
+    match v with
+    | .quad (.base a) (.base b) => pure ⟨a, b⟩
+    | _ => panicM
+  sizeFlags Fl _ := extSizeFlags c Fl (.quad .base)
+  sqrt := gSqrt (c.p * c.p) (fun a => a.c0.val % c.p == 0 && a.c1.val % c.p == 0) (fp2Cands c.p β)
+  lt a b := a.c1.val < b.c1.val || (a.c1.val == b.c1.val && a.c0.val < b.c0.val)
+
+/-! ## Spec-level short-Weierstrass group over any field (as `Ark.AffPt`, which is fixed to `Fp p`) -/
+
+section ggroup
+variable {F : Type} [Add F] [Sub F] [Mul F] [Neg F] [Zero F] [One F] [Inv F] [DecidableEq F]
+
+/-- chord-and-tangent law of `y² = x³ + a·x + b`; `none` is the identity -/
+def gAdd (a : F) (P Q : Option (F × F)) : Option (F × F) :=
+  match P, Q with
+  | none, _ => Q
+  | _, none => P
+  | some (x1, y1), some (x2, y2) =>
+    if x1 = x2 then
+      if y1 = y2 ∧ y1 ≠ 0 then
+        let xx := x1 * x1
+        let lam := (xx + xx + xx + a) * (y1 + y1)⁻¹
+        let x3 := lam * lam - x1 - x2
+        some (x3, lam * (x1 - x3) - y1)
+      else none
+    else
+      let lam := (y2 - y1) * (x2 - x1)⁻¹
+      let x3 := lam * lam - x1 - x2
+      some (x3, lam * (x1 - x3) - y1)
+
+def gNeg (P : Option (F × F)) : Option (F × F) := P.map (fun (x, y) => (x, -y))
+
+def gSmulAux (a : F) : Nat → Nat → Option (F × F) → Option (F × F) → Option (F × F)
+  | 0, _, _, acc => acc
+  | fuel + 1, k, base, acc =>
+    if k = 0 then acc
+    else gSmulAux a fuel (k / 2) (gAdd a base base) (if k % 2 = 1 then gAdd a acc base else acc)
+
+/-- `k • P` -/
+def gSmul (a : F) (k : Nat) (P : Option (F × F)) : Option (F × F) := gSmulAux a (k.log2 + 2) k P none
+
+def SWAff.toOpt (P : SWAff F) : Option (F × F) := if P.infinity then none else some (P.x, P.y)
+
+end ggroup
+
+/-! ## The subgroup test of `ark_test_curves::bls12_381::g2` (override of
+`is_in_correct_subgroup_assuming_on_curve`): `[X]P = ψ(P)`, Section 4 of eprint 2021/1130 -/
+
+/-- `p_power_endomorphism`: Frobenius on both coordinates, then
+    `x.c0 = −K0.c1 · x.c1; x.c1 = K0.c1 · x.c0; y *= K1` (`K0 = P_POWER_ENDOMORPHISM_COEFF_0`, `K1 = …_COEFF_1`) -/
+def g2Psi {p β : Nat} (k0c1 : Fp p) (k1 : Fp2 p β) (P : SWAff (Fp2 p β)) : SWAff (Fp2 p β) :=
+  let rx := P.x.conj
+  let ry := P.y.conj
+  { x := ⟨-k0c1 * rx.c1, k0c1 * rx.c0⟩, y := ry * k1, infinity := P.infinity }
+
+/-- `point.mul_bigint([X, 0, 0, 0])`, negated if `X_IS_NEGATIVE`, compared (as group elements) with `ψ(point)` -/
+def g2InSubgroup {p β : Nat} (a : Fp2 p β) (X : Nat) (xIsNegative : Bool) (k0c1 : Fp p) (k1 : Fp2 p β)
+    (P : SWAff (Fp2 p β)) : Bool :=
+  let xP := gSmul a X P.toOpt
+  let xP := if xIsNegative then gNeg xP else xP
+  xP == (g2Psi k0c1 k1 P).toOpt
+
 /-! ## Bridges to the spec-level short-Weierstrass group `Ark.AffPt` -/
 
 def SWAff.toAffPt {p : Nat} {E : SWParams p} (P : SWAff (Fp p)) : AffPt p E :=
